@@ -273,7 +273,9 @@ Proof.
   - unfold do_lookup_done. destruct (negb _); [apply evo_refl|].
     destruct (pending _) as [|[i dg] rest]; [apply evo_refl|].
     eapply evo_trans; [apply (modc_evo q (set_pending rest)); intros c; cbn; repeat split; auto; ex_nil|].
-    destruct r; [apply authenticate_evo; apply ppq_evo|apply bad_evo].
+    destruct r; [|apply bad_evo].
+    match goal with |- evo ?X (match ?A with _ => _ end) => pose proof (authenticate_evo (ppq store async_store q) q i dg l X (ppq_evo q)) as EA;
+      destruct A end; cbn in *; [exact EA|eapply evo_trans; [exact EA|apply cl_evo]|exact EA].
   - unfold do_pausew. destruct (_ && _); [|apply evo_refl]. apply modc_evo; intros c; cbn; repeat split; auto; ex_nil.
   - unfold do_resumew. destruct (_ && _); [|apply evo_refl]. apply modc_evo; intros c; cbn; repeat split; auto; ex_nil.
   - unfold do_tick. generalize (rev (ids s)). intros l. revert s.
